@@ -52,7 +52,7 @@ pub fn describe<E: Elem>(v: &Val<E>) -> Desc {
         Val::Tup(f, _) => d("tuple", idv(f), 0, 0),
         Val::Vec(x) => d("vec", idv(x), 0, crate::alloc::block_of(x.as_ptr() as *const u8)),
         Val::BSlice(x) => d("bslice", idv(x), 0, crate::alloc::block_of(x.as_ptr() as *const u8)),
-        Val::VIter(x) => d("viter", idv(x.as_slice()), 0, 0),
+        Val::VIter(x) => d("viter", idv(x.as_slice()), 0, crate::alloc::block_of(x.as_slice().as_ptr() as *const u8)),
         _ => {
             let (n, _m) = nest_shape(v);
             d("nested", nest_items(v), n, 0)
@@ -80,11 +80,20 @@ pub struct Outcome<E: Elem> {
 }
 impl<E: Elem> Outcome<E> {
     fn new() -> Self {
-        Outcome { outs: vec![], vals: vec![], res: -1, err: false, dbg: String::new(), dbgref: String::new() }
+        let _b = crate::events::Bypass::new();
+        Outcome { outs: Vec::with_capacity(2), vals: Vec::with_capacity(2), res: -1, err: false, dbg: String::new(), dbgref: String::new() }
     }
-    fn outs(o: Vec<Val<E>>) -> Self {
+    fn outs<const K: usize>(o: [Val<E>; K]) -> Self {
         let mut r = Self::new();
-        r.outs = o;
+        for v in o {
+            r.outs.push(v);
+        }
+        r
+    }
+    fn two(a: Val<E>, b: Val<E>) -> Self {
+        let mut r = Self::new();
+        r.outs.push(a);
+        r.outs.push(b);
         r
     }
 }
@@ -299,7 +308,10 @@ impl<E: Elem> Interp<E> {
             f.drop = jarr(scn, "fuse_drop");
             f.clone = jarr(scn, "fuse_clone");
         }
-        ev!("\"ev\":\"case_start\",\"case\":{},\"prop\":{},\"ety\":\"{}\"", jstr(js(scn, "case")), jstr(js(scn, "prop")), E::ETY);
+        let rec = scn.get("alloc").and_then(|x| x.as_bool()).unwrap_or(false);
+        crate::alloc::reset();
+        crate::events::RECORD_ALLOC.store(rec, std::sync::atomic::Ordering::SeqCst);
+        ev!("\"ev\":\"case_start\",\"case\":{},\"prop\":{},\"ety\":\"{}\",\"rec\":{}", jstr(js(scn, "case")), jstr(js(scn, "prop")), E::ETY, rec);
         crate::events::flush();
         let steps = scn.get("steps").and_then(|x| x.as_array()).cloned().unwrap_or_default();
         for st in steps.iter() {
@@ -317,6 +329,7 @@ impl<E: Elem> Interp<E> {
             self.release_elem(e);
         }
         ev!("\"ev\":\"case_end\"");
+        crate::events::RECORD_ALLOC.store(false, std::sync::atomic::Ordering::SeqCst);
         crate::events::flush();
     }
 
@@ -347,6 +360,7 @@ impl<E: Elem> Interp<E> {
             "mk" => {
                 let n = ju(st, "n").unwrap_or(0) as usize;
                 let kind = js(st, "kind");
+                let _s = crate::alloc::LibScope::enter();
                 let v: Val<E> = match kind {
                     "" | "arr" => with_len!(n, N => GenericArray::<E, N>::generate(|_| E::fresh()).wrap(), panic!("HARNESS: mk arr {}", n)),
                     "box" => with_len!(n, N => Box::new(GenericArray::<E, N>::generate(|_| E::fresh())).wrap(), panic!("HARNESS: mk box {}", n)),
@@ -364,6 +378,7 @@ impl<E: Elem> Interp<E> {
                     "nested" => mk_nested(ju(st, "inner").unwrap_or(0) as usize, n),
                     _ => panic!("HARNESS: mk kind {}", kind),
                 };
+                drop(_s);
                 self.log_mk(v);
             }
             "mk_elem" => {
@@ -422,8 +437,9 @@ impl<E: Elem> Interp<E> {
             None => vals.first().map(|v| describe(v).items.len() as i64).unwrap_or(0),
         };
         let truthful = st.get("hint").is_none();
+        let spare = vals.iter().any(|v| matches!(v, Val::Vec(x) if x.capacity() > x.len()));
         ev!(
-            "\"ev\":\"call\",\"op\":\"{}\",\"recv\":{},\"byval\":[{}],\"arg\":{},\"elems\":{},\"n\":{},\"okind\":\"{}\",\"truthful\":{}",
+            "\"ev\":\"call\",\"op\":\"{}\",\"recv\":{},\"byval\":[{}],\"arg\":{},\"elems\":{},\"n\":{},\"okind\":\"{}\",\"truthful\":{},\"spare\":{}",
             op,
             ids(&recv.iter().map(|x| *x as i64).collect::<Vec<_>>()),
             byval.iter().map(|b| b.to_string()).collect::<Vec<_>>().join(","),
@@ -431,14 +447,24 @@ impl<E: Elem> Interp<E> {
             ids(&elem_ids),
             n,
             okind,
-            truthful
+            truthful,
+            spare
         );
         let ctx = CbCtx { k: Cell::new(0), panic_at, pass_mod };
         let script = st.clone();
         let r = {
             let vals_ref = &mut vals;
             let forms_ref = &forms;
-            catch_unwind(AssertUnwindSafe(move || exec::<E>(op, vals_ref, forms_ref, arg, elems, n as usize, &okind, &ctx, &script)))
+            crate::alloc::CALL_ALLOCS.store(0, std::sync::atomic::Ordering::SeqCst);
+            if let Some(k) = ju(st, "fail_at") {
+                crate::alloc::FAIL_AT.store(k as usize, std::sync::atomic::Ordering::SeqCst);
+            }
+            let r = catch_unwind(AssertUnwindSafe(move || {
+                let _s = crate::alloc::LibScope::enter();
+                exec::<E>(op, vals_ref, forms_ref, arg, elems, n as usize, &okind, &ctx, &script)
+            }));
+            crate::alloc::FAIL_AT.store(0, std::sync::atomic::Ordering::SeqCst);
+            r
         };
         // by-reference operands go back to the pool whatever happened
         let mut back: Vec<(usize, Val<E>)> = vec![];
@@ -495,7 +521,12 @@ impl<E: Elem> Interp<E> {
                 );
             }
             Err(p) => {
-                ev!("\"ev\":\"unwound\",\"obs\":{},\"msg\":{}", obs, jstr(&panic_msg(&p)));
+                let msg = {
+                    let _b = crate::events::Bypass::new();
+                    panic_msg(&p)
+                };
+                drop(p);
+                ev!("\"ev\":\"unwound\",\"obs\":{},\"msg\":{}", obs, jstr(&msg));
             }
         }
     }
@@ -522,90 +553,90 @@ fn exec<E: Elem>(op: &str, vals: &mut Vec<Val<E>>, forms: &[String], arg: i64, m
     let uarg = if arg < 0 { 0usize } else if arg >= i32::MAX as i64 { usize::MAX } else { arg as usize };
     match op {
         // ---- sequence operations ------------------------------------------------------
-        "append" => Outcome::outs(vec![op_append(take(vals, 0), elems.pop().unwrap())]),
-        "prepend" => Outcome::outs(vec![op_prepend(take(vals, 0), elems.pop().unwrap())]),
+        "append" => Outcome::outs([op_append(take(vals, 0), elems.pop().unwrap())]),
+        "prepend" => Outcome::outs([op_prepend(take(vals, 0), elems.pop().unwrap())]),
         "pop_back" => {
             let (v, x) = op_pop_back(take(vals, 0));
-            let mut o = Outcome::outs(vec![v]);
+            let mut o = Outcome::outs([v]);
             o.vals.push(x);
             o
         }
         "pop_front" => {
             let (v, x) = op_pop_front(take(vals, 0));
-            let mut o = Outcome::outs(vec![v]);
+            let mut o = Outcome::outs([v]);
             o.vals.push(x);
             o
         }
         "remove" => {
             let (v, x) = op_remove(take(vals, 0), uarg);
-            let mut o = Outcome::outs(vec![v]);
+            let mut o = Outcome::outs([v]);
             o.vals.push(x);
             o
         }
         "swap_remove" => {
             let (v, x) = op_swap_remove(take(vals, 0), uarg);
-            let mut o = Outcome::outs(vec![v]);
+            let mut o = Outcome::outs([v]);
             o.vals.push(x);
             o
         }
         "split" => {
             let (a, b) = op_split(take(vals, 0), uarg);
-            Outcome::outs(vec![a, b])
+            Outcome::two(a, b)
         }
         "concat" => {
             let b = take(vals, 1);
             let a = take(vals, 0);
-            Outcome::outs(vec![op_concat(a, b)])
+            Outcome::outs([op_concat(a, b)])
         }
-        "flatten" => Outcome::outs(vec![op_flatten(take(vals, 0))]),
-        "unflatten" => Outcome::outs(vec![op_unflatten(take(vals, 0), uarg)]),
+        "flatten" => Outcome::outs([op_flatten(take(vals, 0))]),
+        "unflatten" => Outcome::outs([op_unflatten(take(vals, 0), uarg)]),
         // ---- conversions --------------------------------------------------------------
-        "into_array" => Outcome::outs(vec![op_into_array(take(vals, 0), false)]),
-        "into_native" => Outcome::outs(vec![op_into_array(take(vals, 0), true)]),
-        "from_array" => Outcome::outs(vec![op_from_array(take(vals, 0), false)]),
-        "from_native" => Outcome::outs(vec![op_from_array(take(vals, 0), true)]),
-        "into_tuple" => Outcome::outs(vec![op_into_tuple(take(vals, 0))]),
-        "from_tuple" => Outcome::outs(vec![op_from_tuple(take(vals, 0))]),
-        "into_iter" => Outcome::outs(vec![with_arr!(take(vals, 0), a => a.into_iter().wrap(), bad())]),
-        "box_new" => Outcome::outs(vec![with_arr!(take(vals, 0), a => Box::new(a).wrap(), bad())]),
-        "unbox" => Outcome::outs(vec![with_box!(take(vals, 0), a => (*a).wrap(), bad())]),
-        "into_boxed_slice" => Outcome::outs(vec![with_box!(take(vals, 0), a => a.into_boxed_slice().wrap(), bad())]),
-        "into_vec" => Outcome::outs(vec![with_box!(take(vals, 0), a => a.into_vec().wrap(), bad())]),
-        "box_into_iter" => Outcome::outs(vec![with_box!(take(vals, 0), a => a.into_iter().wrap(), bad())]),
-        "vec_from_arr" => Outcome::outs(vec![with_arr!(take(vals, 0), a => Vec::<E>::from(a).wrap(), bad())]),
-        "bslice_from_arr" => Outcome::outs(vec![with_arr!(take(vals, 0), a => Box::<[E]>::from(a).wrap(), bad())]),
+        "into_array" => Outcome::outs([op_into_array(take(vals, 0), false)]),
+        "into_native" => Outcome::outs([op_into_array(take(vals, 0), true)]),
+        "from_array" => Outcome::outs([op_from_array(take(vals, 0), false)]),
+        "from_native" => Outcome::outs([op_from_array(take(vals, 0), true)]),
+        "into_tuple" => Outcome::outs([op_into_tuple(take(vals, 0))]),
+        "from_tuple" => Outcome::outs([op_from_tuple(take(vals, 0))]),
+        "into_iter" => Outcome::outs([with_arr!(take(vals, 0), a => a.into_iter().wrap(), bad())]),
+        "box_new" => Outcome::outs([with_arr!(take(vals, 0), a => Box::new(a).wrap(), bad())]),
+        "unbox" => Outcome::outs([with_box!(take(vals, 0), a => (*a).wrap(), bad())]),
+        "into_boxed_slice" => Outcome::outs([with_box!(take(vals, 0), a => a.into_boxed_slice().wrap(), bad())]),
+        "into_vec" => Outcome::outs([with_box!(take(vals, 0), a => a.into_vec().wrap(), bad())]),
+        "box_into_iter" => Outcome::outs([with_box!(take(vals, 0), a => a.into_iter().wrap(), bad())]),
+        "vec_from_arr" => Outcome::outs([with_arr!(take(vals, 0), a => Vec::<E>::from(a).wrap(), bad())]),
+        "bslice_from_arr" => Outcome::outs([with_arr!(take(vals, 0), a => Box::<[E]>::from(a).wrap(), bad())]),
         "bslice_into_vec" => match take(vals, 0) {
-            Val::BSlice(b) => Outcome::outs(vec![Val::Vec(b.into_vec())]),
+            Val::BSlice(b) => Outcome::outs([Val::Vec(b.into_vec())]),
             _ => bad(),
         },
         "vec_into_bslice" => match take(vals, 0) {
-            Val::Vec(b) => Outcome::outs(vec![Val::BSlice(b.into_boxed_slice())]),
+            Val::Vec(b) => Outcome::outs([Val::BSlice(b.into_boxed_slice())]),
             _ => bad(),
         },
         "try_from_boxed_slice" => match take(vals, 0) {
             Val::BSlice(b) => with_len!(uarg, N => match GenericArray::<E, N>::try_from_boxed_slice(b) {
-                Ok(x) => Outcome::outs(vec![x.wrap()]),
+                Ok(x) => Outcome::outs([x.wrap()]),
                 Err(_) => { let mut o = Outcome::new(); o.err = true; o }
             }, bad()),
             _ => bad(),
         },
         "try_from_vec" => match take(vals, 0) {
             Val::Vec(b) => with_len!(uarg, N => match GenericArray::<E, N>::try_from_vec(b) {
-                Ok(x) => Outcome::outs(vec![x.wrap()]),
+                Ok(x) => Outcome::outs([x.wrap()]),
                 Err(_) => { let mut o = Outcome::new(); o.err = true; o }
             }, bad()),
             _ => bad(),
         },
         "arr_try_from_vec" => match take(vals, 0) {
             Val::Vec(b) => with_len!(uarg, N => match GenericArray::<E, N>::try_from(b) {
-                Ok(x) => Outcome::outs(vec![x.wrap()]),
+                Ok(x) => Outcome::outs([x.wrap()]),
                 Err(_) => { let mut o = Outcome::new(); o.err = true; o }
             }, bad()),
             _ => bad(),
         },
         "arr_try_from_bslice" => match take(vals, 0) {
             Val::BSlice(b) => with_len!(uarg, N => match GenericArray::<E, N>::try_from(b) {
-                Ok(x) => Outcome::outs(vec![x.wrap()]),
+                Ok(x) => Outcome::outs([x.wrap()]),
                 Err(_) => { let mut o = Outcome::new(); o.err = true; o }
             }, bad()),
             _ => bad(),
@@ -650,6 +681,7 @@ fn exec<E: Elem>(op: &str, vals: &mut Vec<Val<E>>, forms: &[String], arg: i64, m
             let mut o = Outcome::new();
             with_iter!(&vals[0], it => {
                 o.res = it.len() as i64;
+                let _b = crate::events::Bypass::new();
                 o.dbg = format!("{:?}", it);
                 o.dbgref = format!("GenericArrayIter({:?})", it.as_slice());
             }, bad());
@@ -689,17 +721,17 @@ fn exec<E: Elem>(op: &str, vals: &mut Vec<Val<E>>, forms: &[String], arg: i64, m
             o.res = with_iter!(take(vals, 0), it => it.rfold(0i64, |acc, x| ctx.fold::<E, E>(acc, x)), bad());
             o
         }
-        "iter_clone" => Outcome::outs(vec![with_iter!(&vals[0], it => it.clone().wrap(), bad())]),
+        "iter_clone" => Outcome::outs([with_iter!(&vals[0], it => it.clone().wrap(), bad())]),
         // ---- functional operations -----------------------------------------------------
-        "generate" => Outcome::outs(vec![match okind {
+        "generate" => Outcome::outs([match okind {
             "box" => with_len!(n, N => Box::<GenericArray<E, N>>::generate(|i| ctx.gen::<E>(i)).wrap(), bad()),
             _ => with_len!(n, N => GenericArray::<E, N>::generate(|i| ctx.gen::<E>(i)).wrap(), bad()),
         }]),
-        "default" => Outcome::outs(vec![match okind {
+        "default" => Outcome::outs([match okind {
             "box" => with_len!(n, N => dflt_boxed::<E, N>().wrap(), bad()),
             _ => with_len!(n, N => dflt_arr::<E, N>().wrap(), bad()),
         }]),
-        "clone" => Outcome::outs(vec![match &vals[0] {
+        "clone" => Outcome::outs([match &vals[0] {
             v @ _ => {
                 if let Some(x) = with_arr!(v, a => Some(a.clone().wrap()), None) { x }
                 else { with_box!(v, a => a.clone().wrap(), bad()) }
@@ -707,8 +739,8 @@ fn exec<E: Elem>(op: &str, vals: &mut Vec<Val<E>>, forms: &[String], arg: i64, m
         }]),
         "map" => {
             let f = forms[0].as_str();
-            let is_box = matches!(describe(&vals[0]).kind, "box");
-            Outcome::outs(vec![if is_box {
+            let is_box = with_box!(&vals[0], _a => true, false);
+            Outcome::outs([if is_box {
                 with_box!(take(vals, 0), a => a.map(|x| ctx.cb1::<E, E>(x)).wrap(), bad())
             } else {
                 match f {
@@ -720,7 +752,7 @@ fn exec<E: Elem>(op: &str, vals: &mut Vec<Val<E>>, forms: &[String], arg: i64, m
         }
         "fold" => {
             let f = forms[0].as_str();
-            let is_box = matches!(describe(&vals[0]).kind, "box");
+            let is_box = with_box!(&vals[0], _a => true, false);
             let mut o = Outcome::new();
             o.res = if is_box {
                 with_box!(take(vals, 0), a => a.fold(0i64, |acc, x| ctx.fold::<E, E>(acc, x)), bad())
@@ -734,8 +766,8 @@ fn exec<E: Elem>(op: &str, vals: &mut Vec<Val<E>>, forms: &[String], arg: i64, m
             o
         }
         "zip" => {
-            let is_box = matches!(describe(&vals[0]).kind, "box");
-            Outcome::outs(vec![if is_box {
+            let is_box = with_box!(&vals[0], _a => true, false);
+            Outcome::outs([if is_box {
                 let b = take(vals, 1);
                 let a = take(vals, 0);
                 with_box2!((a, b), x, y => x.zip(y, |p, q| ctx.cb2::<E, E, E>(p, q)).wrap(), bad())
@@ -756,6 +788,7 @@ fn exec<E: Elem>(op: &str, vals: &mut Vec<Val<E>>, forms: &[String], arg: i64, m
         }
         // ---- collecting from a scripted source ---------------------------------------------
         "try_from_iter" | "from_iter" | "try_boxed_from_iter" | "boxed_from_iter" => {
+            let _pre = crate::events::Bypass::new();
             let script: Vec<u8> = jarr(st, "script").into_iter().map(|x| x as u8).collect();
             let hint = st.get("hint").and_then(|h| h.as_array()).map(|h| {
                 let lo = h[0].as_i64().unwrap() as usize;
@@ -764,6 +797,7 @@ fn exec<E: Elem>(op: &str, vals: &mut Vec<Val<E>>, forms: &[String], arg: i64, m
             });
             let src = ScriptedIter::<E> { script, pos: 0, hint, _p: std::marker::PhantomData };
             let mut o = Outcome::new();
+            drop(_pre);
             match op {
                 "try_from_iter" => with_len!(n, N => match GenericArray::<E, N>::try_from_iter(src) { Ok(a) => o.outs.push(a.wrap()), Err(_) => o.err = true }, bad()),
                 "from_iter" => with_len!(n, N => o.outs.push(src.collect::<GenericArray<E, N>>().wrap()), bad()),
